@@ -100,7 +100,7 @@ def build():
             && !final(conn).connected && final(conn).phase is Registering && final(conn).last_received is None'''),
                    C('C07+C08.hk.reconnect_uplink.retry_clock_and_startup_grace_restart', 'r is Ok ==> final(conn).reconnection.last_reconnect_attempt_ms == now && final(conn).reconnection.reconnect_failure_count == 0 && final(conn).reconnection.startup_grace_deadline_ms == now + 5000'),
                    'r is Ok ==> final(conn).batch_sender.wf() && final(conn).batch_sender.queue.len() == 0 && final(conn).wf()',
-                   'final(conn).conn_id == old(conn).conn_id',
+                   C('C19.hk.reconnect_uplink.a_reconnect_keeps_the_identity_reloads_match_on', 'final(conn).conn_id == old(conn).conn_id && final(conn).label == old(conn).label && final(conn).local_ip == old(conn).local_ip'),
                    'r is Ok ==> final(conn).reconnection.connection_established_ms == old(conn).reconnection.connection_established_ms',
                ]))
 
